@@ -88,9 +88,10 @@ def classify(msg):
     return 'other', True
 
 
-def run_verus(force=False):
-    """weave + verify the whole crate once; cached by content hash of (current /repo source, contracts, spec, tools)"""
-    key = hashlib.sha256((src_hash() + sha_files(v_inputs())).encode()).hexdigest()[:24]
+def run_verus(force=False, slow=False):
+    """weave + verify the whole crate once; cached by content hash of (current /repo source, contracts, spec, tools);
+    slow=True (thorough tier) also verifies the functions marked @slow, which the quick tier keeps as assumed contracts"""
+    key = hashlib.sha256((src_hash() + sha_files(v_inputs()) + ('+slow' if slow else '')).encode()).hexdigest()[:24]
     cdir = os.path.join(CACHE, 'v', key)
     res_path = os.path.join(cdir, 'result.json')
     if os.path.exists(res_path) and not force and not os.environ.get('VERIF_NOCACHE'):
@@ -118,7 +119,9 @@ def run_verus(force=False):
             wcmd = [sys.executable, os.path.join(VERIF, 'tools', 'weave.py'), os.path.join(wd, 'src'), '--contracts'] + contracts + \
                    ['--extra', 'vx=' + os.path.join(VERIF, 'vxlib', 'vx.rs'), 'vspec=' + os.path.join(VERIF, 'spec', 'vspec.rs'), 'vxl=' + os.path.join(VERIF, 'spec', 'vxl.rs'), 'vck=' + os.path.join(VERIF, 'spec', 'vck.rs'), '--map', mp]
             if demote: wcmd += ['--demote'] + ['%s=%s' % kv for kv in sorted(demote.items())]
-            wp = subprocess.run(wcmd, capture_output=True, text=True)
+            wenv = dict(os.environ); wenv.pop('VERIF_V_SLOW', None)
+            if slow: wenv['VERIF_V_SLOW'] = '1'
+            wp = subprocess.run(wcmd, capture_output=True, text=True, env=wenv)
             wmap = json.load(open(mp)) if os.path.exists(mp) else {'fns': [], 'specs': [], 'problems': [{'kind': 'weaver_crash', 'what': wp.stderr[-2000:]}]}
             vp = subprocess.run(vcmd, cwd=wd, capture_output=True, text=True)
             try:
@@ -522,7 +525,7 @@ def decide(prop, tier, seed):
     # ---------------- V ----------------
     v = None
     if spec.get('v', True):
-        v = run_verus()
+        v = run_verus(slow=(tier == 'thorough'))
         checker_cmds.append(v['checker_cmd'])
         mine = {k: f for k, f in v['fns'].items() if prop in f['tags']}
         # weave/compile problems
